@@ -35,9 +35,10 @@ VARIABLES l,        \* index of the next event
           lm,       \* LeastModel(P, pushed) (recomputed at every call)
           last,     \* outcome of the last call: "none" | "true" | "false" | "panic"
           nins,     \* ins events since the last `merged`
+          relaxed,  \* lattice relations into which the CALLER pushed a row for a key that already had one
           bad       \* discrepancies found so far
 
-vars == <<l, pi, cid, mode, pushed, db, lm, last, nins, bad>>
+vars == <<l, pi, cid, mode, pushed, db, lm, last, nins, relaxed, bad>>
 
 P == Progs[pi]
 Ev == Rec[l]
@@ -48,22 +49,28 @@ IsEvent(e) == l <= Len(Rec) /\ Rec[l].e = e /\ l' = l + 1
 
 TraceInit ==
    /\ l = 1 /\ pi = 1 /\ cid = -1 /\ mode = "ser"
-   /\ pushed = <<>> /\ db = <<>> /\ lm = <<>> /\ last = "none" /\ nins = 0 /\ bad = <<>>
+   /\ pushed = <<>> /\ db = <<>> /\ lm = <<>> /\ last = "none" /\ nins = 0 /\ relaxed = {} /\ bad = <<>>
 
 --------------------------------------------------------------------------------
 Case ==
    /\ IsEvent("case")
    /\ pi' = Ev.pi /\ cid' = Ev.id /\ mode' = Ev.mode
    /\ pushed' = EmptyDb(Progs[Ev.pi]) /\ db' = EmptyDb(Progs[Ev.pi]) /\ lm' = EmptyDb(Progs[Ev.pi])
-   /\ last' = "none" /\ nins' = 0
+   /\ last' = "none" /\ nins' = 0 /\ relaxed' = {}
    /\ UNCHANGED bad
 
-(* the caller pushes rows: they are part of the program value from now on *)
+(* the caller pushes rows: they are part of the program value from now on. A row pushed into a lattice relation *)
+(* for a key that already has a row makes a second row for that key - the caller's doing: from then on that      *)
+(* relation is compared key-wise joined (as a fresh run on everything pushed would hold it) and the one-row-per- *)
+(* key obligations are waived for it                                                                             *)
 Push ==
    /\ IsEvent("push")
    /\ LET rows == RowsFromJ(P, Ev.rel, Ev.rows) IN
       /\ pushed' = [pushed EXCEPT ![Ev.rel] = @ \cup rows]
       /\ db' = AddFacts(P, db, { <<Ev.rel, t>> : t \in rows })
+      /\ relaxed' = IF IsLat(P, Ev.rel) /\ ( { Front(t) : t \in rows } \cap { Front(u) : u \in db[Ev.rel] } # {}
+                                            \/ Cardinality({ Front(t) : t \in rows }) # Len(Ev.rows) )
+                    THEN relaxed \cup {Ev.rel} ELSE relaxed
    /\ UNCHANGED <<pi, cid, mode, lm, last, nins, bad>>
 
 (* the caller overwrites a relation field. Everything else the program value holds (earlier inputs and everything *)
@@ -76,13 +83,13 @@ Set ==
           held == [ r \in DOMAIN db |-> IF r = Ev.rel THEN rows ELSE db[r] ]
       IN /\ pushed' = held
          /\ db' = held
-   /\ UNCHANGED <<pi, cid, mode, lm, last, nins, bad>>
+   /\ UNCHANGED <<pi, cid, mode, lm, last, nins, relaxed, bad>>
 
 Call ==
    /\ IsEvent("call")
    /\ lm' = LeastModel(P, pushed)
    /\ nins' = 0
-   /\ UNCHANGED <<pi, cid, mode, pushed, db, last, bad>>
+   /\ UNCHANGED <<pi, cid, mode, pushed, db, last, relaxed, bad>>
 
 (* ---- head insertion of a relation: the tuple must be new and derivable ---- *)
 InsRel(r, t) ==
@@ -98,10 +105,11 @@ InsLat(r, t) ==
        old == { u \in db[r] : Front(u) = key }
        fin == { u \in lm[r] : Front(u) = key }
    IN
-   /\ db' = [db EXCEPT ![r] = (@ \ old) \cup {t}]
+   /\ db' = [db EXCEPT ![r] = IF r \in relaxed THEN LatCollapse(ty, @ \cup {t}) ELSE (@ \ old) \cup {t}]
    /\ bad' = IF fin = {} THEN Flag("underivable-lattice-key", [rel |-> r, t |-> t])
              ELSE IF ~Leq(ty, Last(t), Last(CHOOSE u \in fin : TRUE))
                   THEN Flag("lattice-above-fixpoint", [rel |-> r, t |-> t])
+             ELSE IF r \in relaxed THEN bad      \* the reported row is one of several rows of its key
              ELSE IF old # {} /\ ~Leq(ty, Last(CHOOSE u \in old : TRUE), Last(t))
                   THEN Flag("lattice-decreased", [rel |-> r, t |-> t])
              ELSE IF old # {} /\ mode = "ser" /\ Last(CHOOSE u \in old : TRUE) = Last(t)
@@ -115,33 +123,35 @@ Ins ==
       THEN UNCHANGED <<db, bad>>                       \* relation with a custom provider: contents not observable here
       ELSE LET t == RowFromJ(P, Ev.rel, Ev.t) IN
            IF IsLat(P, Ev.rel) THEN InsLat(Ev.rel, t) ELSE InsRel(Ev.rel, t)
-   /\ UNCHANGED <<pi, cid, mode, pushed, lm, last>>
+   /\ UNCHANGED <<pi, cid, mode, pushed, lm, last, relaxed>>
 
 (* ---- end of a merge round: the `changed` flag must tell whether anything was inserted ---- *)
 Merged ==
    /\ IsEvent("merged")
    /\ nins' = 0
    /\ bad' = IF nins > 0 /\ ~Ev.chg THEN Flag("changed-flag-lost", [scc |-> Ev.i, inserted |-> nins]) ELSE bad
-   /\ UNCHANGED <<pi, cid, mode, pushed, db, lm, last>>
+   /\ UNCHANGED <<pi, cid, mode, pushed, db, lm, last, relaxed>>
 
 Other ==     \* structural events carry no obligation at this level
    /\ l <= Len(Rec) /\ Rec[l].e \in {"run_start", "run_end", "scc_start", "scc_end", "deadline", "summary"}
    /\ l' = l + 1
-   /\ UNCHANGED <<pi, cid, mode, pushed, db, lm, last, nins, bad>>
+   /\ UNCHANGED <<pi, cid, mode, pushed, db, lm, last, nins, relaxed, bad>>
 
 Ret ==
    /\ IsEvent("ret")
    /\ last' = Ev.r                               \* "true" | "false" | "panic" | "unsupported"
    /\ bad' = IF Ev.r = "panic" THEN Flag("panic", [msg |-> Ev.msg]) ELSE bad
-   /\ UNCHANGED <<pi, cid, mode, pushed, db, lm, nins>>
+   /\ UNCHANGED <<pi, cid, mode, pushed, db, lm, nins, relaxed>>
 
 (* ---- the observable state after a call ---- *)
 RelCheck(r, rows) ==       \* set of discrepancy records for one relation
-   LET n == Len(rows)
-       S == RowsFromJ(P, r, rows)
+   LET relax == r \in relaxed
+       n == Len(rows)
+       S0 == RowsFromJ(P, r, rows)
+       S == IF relax THEN LatCollapse(LatTy(RelOf(P, r).lat), S0) ELSE S0
        observable == RelOf(P, r).ds = "-"
    IN
-   (IF Cardinality(S) # n THEN { [kind |-> "duplicate-rows", rel |-> r, rows |-> n, distinct |-> Cardinality(S)] } ELSE {})
+   (IF ~relax /\ Cardinality(S) # n THEN { [kind |-> "duplicate-rows", rel |-> r, rows |-> n, distinct |-> Cardinality(S)] } ELSE {})
    \cup
    (IF IsLat(P, r) /\ Cardinality({ Front(t) : t \in S }) # Cardinality(S)
     THEN { [kind |-> "two-rows-for-one-lattice-key", rel |-> r] } ELSE {})
@@ -165,14 +175,17 @@ State ==
           sq == SetToSeq(found)
       IN bad' = bad \o [ i \in 1..Len(sq) |-> [case |-> cid, line |-> l, kind |-> sq[i].kind, detail |-> sq[i]] ]
    \* resynchronise with what the program really holds, so that one discrepancy is reported once
-   /\ db' = [ r \in DOMAIN db |-> IF r \in DOMAIN Ev.rels /\ RelOf(P, r).ds = "-" THEN RowsFromJ(P, r, Ev.rels[r]) ELSE db[r] ]
-   /\ UNCHANGED <<pi, cid, mode, pushed, lm, last, nins>>
+   /\ db' = [ r \in DOMAIN db |-> IF r \in DOMAIN Ev.rels /\ RelOf(P, r).ds = "-"
+                                   THEN (IF r \in relaxed THEN LatCollapse(LatTy(RelOf(P, r).lat), RowsFromJ(P, r, Ev.rels[r]))
+                                         ELSE RowsFromJ(P, r, Ev.rels[r]))
+                                   ELSE db[r] ]
+   /\ UNCHANGED <<pi, cid, mode, pushed, lm, last, nins, relaxed>>
 
 Finish ==
    /\ l = Len(Rec) + 1
    /\ PrintT("DONE " \o ToJson([events |-> Len(Rec), bad |-> bad]))
    /\ l' = l + 1
-   /\ UNCHANGED <<pi, cid, mode, pushed, db, lm, last, nins, bad>>
+   /\ UNCHANGED <<pi, cid, mode, pushed, db, lm, last, nins, relaxed, bad>>
 
 TraceNext == Case \/ Push \/ Set \/ Call \/ Ins \/ Merged \/ Other \/ Ret \/ State \/ Finish
 
